@@ -68,6 +68,7 @@ fn cfg(tier: Tier) -> ProgCfg {
             foreign: 2,
             meta: 1,
             read: 1,
+            switch_cache: 1,
             ..OpMix::NONE
         },
         wmix: WriteMix { bad_decls: false, meta: true, by_hash: false, rich_matching: false, interfere: false },
